@@ -273,6 +273,49 @@ package aggregator
 //@   ensures[others]   forall t int, k bytes :: (t != quantized || k != key) ==> (has2(a, t, k) == old(has2(a, t, k)) && (has2(a, t, k) ==>
 //@        proc2(a, t, k) == old(proc2(a, t, k)) && proc2(a, t, k).vals == old(proc2(a, t, k).vals) && proc2(a, t, k).tss == old(proc2(a, t, k).tss)))
 
+// ---------------------------------------------------------------- aggregator.go: Flush (C10, C11)
+//@ iface (p Processor) Flush() (results []processorResult, ok bool)
+//@   property C10
+//@   logged
+//@   fresh
+//@ // the reporter's buffer is private to it and no contract mentions it; its only effect is there
+//@ func (r *AggregatorReporter) add(key string, ts uint32, count uint32)
+//@   trusted
+//@ spec flushCalls(p Processor) := callsOf("aggregator.Processor.Flush", p.ref)
+//@
+//@ // Flush(cutoff): every bucket that starts at or before the cutoff is closed: each of its processors is flushed
+//@ // exactly once and the bucket is removed; buckets after the cutoff are untouched; the timestamp list keeps
+//@ // exactly the open buckets, in order; nothing but the aggregator's out channel is written to.
+//@ func (a *Aggregator) Flush(cutoff uint)
+//@   property C10,C11
+//@   requires aggInv(a) && a.out != nil && !closed(a.out) && a.numFlushed != nil && flushWaiting != nil && flushes != nil
+//@   modifies a.tsList, a.tsList[..], a.aggregations[..], sent(a.out), allof("ghost:metrics.Counter.count"), allof("calls:aggregator.Processor.Flush")
+//@   ensures[inv_objs]     invObjs(a)
+//@   ensures[inv_sorted]   invSorted(a)
+//@   ensures[inv_listed]   invListed(a)
+//@   ensures[closed_buckets_removed; C10] forall t int :: 0 <= t && t <= cutoff ==> !has(a.aggregations, t)
+//@   ensures[open_buckets_kept; C10] forall t int :: t > cutoff ==> has(a.aggregations, t) == old(has(a.aggregations, t)) && (has(a.aggregations, t) ==> a.aggregations[t] == old(a.aggregations[t]))
+//@   ensures[list_keeps_the_open_buckets_in_order; C10] exists n int :: 0 <= n && n <= old(len(a.tsList)) && len(a.tsList) == old(len(a.tsList)) - n
+//@        && (forall j int :: 0 <= j && j < len(a.tsList) ==> a.tsList[j] == old(a.tsList[n + j]))
+//@        && (forall j int :: 0 <= j && j < n ==> old(a.tsList[j]) <= cutoff) && (len(a.tsList) > 0 ==> a.tsList[0] > cutoff)
+//@   ensures[each_closed_bucket_flushed_once; C10] forall t int, k bytes :: old(has2(a, t, k)) && t <= cutoff ==> flushCalls(old(proc2(a, t, k))) == old(flushCalls(proc2(a, t, k))) ++ eNil
+//@   ensures[no_open_bucket_flushed; C10] forall t int, k bytes :: old(has2(a, t, k)) && t > cutoff ==> flushCalls(old(proc2(a, t, k))) == old(flushCalls(proc2(a, t, k)))
+//@   loop 1:
+//@     invariant[idx] 0 <= #i && #i <= len(#s) && #s == old(a.tsList) && a.tsList == old(a.tsList) && pos == #i - 1 && (forall j int :: 0 <= j && j < len(a.tsList) ==> a.tsList[j] == old(a.tsList[j]))
+//@     invariant[objs] invObjs(a) && a.out == old(a.out) && a.numFlushed == old(a.numFlushed) && a.aggregations == old(a.aggregations)
+//@     invariant[closed_so_far] forall j int :: 0 <= j && j < #i ==> a.tsList[j] <= cutoff && !has(a.aggregations, a.tsList[j])
+//@     invariant[rest_untouched] forall t int :: (forall j int :: 0 <= j && j < #i ==> a.tsList[j] != t) ==> has(a.aggregations, t) == old(has(a.aggregations, t)) && (has(a.aggregations, t) ==> a.aggregations[t] == old(a.aggregations[t]))
+//@     invariant[flushed_so_far] forall t int, k bytes, j int :: old(has2(a, t, k)) && 0 <= j && j < #i && a.tsList[j] == t ==> flushCalls(old(proc2(a, t, k))) == old(flushCalls(proc2(a, t, k))) ++ eNil
+//@     invariant[not_flushed_yet] forall t int, k bytes :: old(has2(a, t, k)) && (forall j int :: 0 <= j && j < #i ==> a.tsList[j] != t) ==> flushCalls(old(proc2(a, t, k))) == old(flushCalls(proc2(a, t, k)))
+//@   loop 2:
+//@     invariant[same] a.tsList == old(a.tsList) && a.aggregations == old(a.aggregations) && a.out == old(a.out) && a.numFlushed == old(a.numFlushed) && agg == old(a.aggregations[now(ts)]) && old(has(a.aggregations, now(ts)))
+//@     invariant[bucket_flushing] forall k bytes :: old(has2(a, now(ts), k)) ==> flushCalls(old(proc2(a, now(ts), k))) == (#visited[k] ? old(flushCalls(proc2(a, now(ts), k))) ++ eNil : old(flushCalls(proc2(a, now(ts), k))))
+//@     invariant[position] 0 <= i && i < len(a.tsList) && a.tsList[i] == ts && (forall j int :: 0 <= j && j < len(a.tsList) ==> a.tsList[j] == old(a.tsList[j]))
+//@     invariant[earlier_buckets_flushed] forall t int, k bytes, j int :: old(has2(a, t, k)) && 0 <= j && j < i && a.tsList[j] == t ==> flushCalls(old(proc2(a, t, k))) == old(flushCalls(proc2(a, t, k))) ++ eNil
+//@     invariant[later_buckets_not_flushed] forall t int, k bytes :: old(has2(a, t, k)) && t != ts && (forall j int :: 0 <= j && j < i ==> a.tsList[j] != t) ==> flushCalls(old(proc2(a, t, k))) == old(flushCalls(proc2(a, t, k)))
+//@   loop 3:
+//@     invariant[same3] 0 <= #i && #i <= len(#s) && a.out == old(a.out) && a.numFlushed == old(a.numFlushed)
+
 // ---------------------------------------------------------------- constructors (C14): parameters that cannot work are refused
 //@ func (a *Aggregator) setKey() string
 //@   trusted
